@@ -46,4 +46,27 @@ theorem stale_table_matters :
     runSeq true false [] ["a halt".toList, "a halt".toList] ≠
     runSeq true true [] ["a halt".toList, "a halt".toList] := by decide
 
+/-- **Whole watch sessions.** As long as every version so far could be read, each re-check says
+what a fresh `lace check` of that version says (whatever was assembled before, failures
+included); the first version that is not text ends the watcher (`check` reports an error for it),
+and no later version is re-checked. -/
+theorem watch_session_eq_checks (flag : Bool) (vs : List (Option (List Char))) :
+    watchSession flag [] vs =
+      (vs.takeWhile Option.isSome).map (checkVerdict flag) ++
+      (match vs.dropWhile Option.isSome with
+       | [] => []
+       | _ :: later => .exited :: later.map fun _ => .none) := by
+  induction vs with
+  | nil => simp [watchSession]
+  | cons v rest ih =>
+    cases v with
+    | none => simp [watchSession]
+    | some src =>
+      simp only [watchSession, List.takeWhile_cons, Option.isSome_some, if_true, List.map_cons,
+        List.dropWhile_cons, List.cons_append, checkVerdict, reset_eq_empty]
+      rw [ih]
+
+example : watchSession true [] [some "a halt".toList, some "a halt\nb add r0".toList, some "a halt".toList, none, some "halt".toList] =
+    [.ok, .diag, .ok, .exited, .none] := by decide
+
 end Lace.C19
